@@ -313,6 +313,7 @@ def check(rep, c, cfg):
                 r3.violation("absorb:%s" % b["path"], where(n), "absorbs a refusal (%s) and pest::state does "
                              "not look at the tracker on success" % how)
     refusefirst(rep, c, sfx, callers_inc, inc_fns)
+    panicafter(rep, c, sfx, wrappers_reached(c, reached))
     r4 = rep.rule("C12.ENTRY" + sfx, 0, "combinators that count a call (evidence only)")
     for p in callers_inc:
         for (q, n) in cg.callers_of(p):
@@ -577,3 +578,55 @@ def refusefirst(rep, c, sfx, callers_inc, inc_fns=None):
                         "refused the early return hands back a state that is not the caller's, and a combinator that "
                         "absorbs the refusal (optional, repeat, negative look-ahead) carries on with it"
                         % (b["name"], bad[0], bad[1].split("::")[-1]))
+
+
+def wrappers_reached(c, reached):
+    ws = set([reached["path"]])
+    for b in c.bodies:
+        if b.get("output") == "bool" and b.get("body") is not None and any(callee(n) == reached["path"] for n in walk(b["body"])):
+            ws.add(b["path"])
+    return ws
+
+
+def panicafter(rep, c, sfx, reached_fns):
+    """After a refused call the parse goes on (the refusal is an Err that optional / repeat / look-ahead / choice
+    absorb) on a state the grammar did not establish: a PUSH may have been skipped.  A primitive that asserts something
+    about that state (`expect("pop was called on empty stack")`) then panics - neither the unlimited result nor the
+    call-limit error."""
+    r = rep.rule("C12.PANICAFTER" + sfx, 2,
+                 "every explicit panic site (expect / unwrap / panic!) in a public ParserState operation is preceded, on "
+                 "every path, by an early exit taken when the call limit has been reached: an assertion about state that "
+                 "a refused call may have skipped must not fire once the tracker says `reached`")
+    PANICS = ("core::option::Option::expect", "core::option::Option::unwrap", "core::result::Result::expect",
+              "core::result::Result::unwrap")
+    n = 0
+    for b in c.bodies:
+        if b.get("impl_self") != PSTATE or b.get("body") is None or not b.get("exported") or b.get("exp"):
+            continue
+        sites = [x for x in walk(b["body"]) if kind(x) in ("Call", "MethodCall") and (
+            callee(x) in PANICS or callee(x) in hirq.PANIC_CALLEES) and not any(
+                s in " ".join(x.get("exp") or []) for s in ("debug_assert", "unreachable"))]
+        if not sites:
+            continue
+        ctx = hirq.Ctx(b)
+        for x in sites:
+            n += 1
+            key = "%s:%s" % (b["name"], str(callee(x)).split("::")[-1])
+            r.instance(key, where(x))
+            ok = False
+            for g in ctx.guards(x):
+                if g[0] in ("not", "if"):
+                    truth = False if g[0] == "not" else g[2]
+                    # the panic site runs only where `... && reached` is false / `!reached` is true
+                    for y in walk(g[1]):
+                        if kind(y) in ("Call", "MethodCall") and callee(y) in reached_fns:
+                            ok = True
+            if not ok:
+                r.violation(key, where(x),
+                            "ParserState::%s can panic (%s) and does not look at the call-limit tracker first: after a "
+                            "refused call absorbed by optional / repeat / look-ahead / choice (e.g. a skipped PUSH in "
+                            "`PUSH(\"a\")? ~ POP`) the limit turns a valid parse into a panic" %
+                            (b["name"], str(callee(x)).split("::")[-1]))
+    if n == 0:
+        r.note("no explicit panic site in a public ParserState operation")
+        r.floor = 0
